@@ -247,7 +247,8 @@ def merge_and_product(chk, rid):
         (isinstance(e.ops[0], ast.NotIn) and val) or (isinstance(e.ops[0], ast.In) and not val))
   body_rets = [n for n, r in r2v.returns()
                if not any(no_body(e, val) for e, val in r2v.guards(n))]
-  chk.ob(rid, bool(dnf_calls) and all(r2v.cfg.must_pass_before(n, dnf_calls) for n in body_rets),
+  chk.ob(rid, bool(dnf_calls) and all(n in dnf_calls or r2v.cfg.must_pass_before(n, dnf_calls)
+                                      for n in body_rets),
          None, 'every rule with a body is rewritten through PropositionToDNF',
          'a path of RuleToRules returns the rule without normalising its body: '
          'nested conjunctions (parenthesised groups of conjuncts) survive and are '
